@@ -90,7 +90,7 @@ def _unescape_tla_string(s):
 
 def tlc(module, cfg=None, spec_dir=None, workers=1, simulate=None, depth=None, tseed=None, env=None,
         timeout=900, xmx="6g", coverage=False, extra=None, deadlock=True, want_printed=True, tag=None,
-        dfs=False):
+        dfs=False, light=False):
     """run TLC on spec_dir/module.tla with spec_dir/cfg; returns TlcResult.
     simulate=N -> `-simulate num=N`; depth -> `-depth`; tseed -> `-seed`."""
     spec_dir = spec_dir or SPEC
@@ -98,7 +98,11 @@ def tlc(module, cfg=None, spec_dir=None, workers=1, simulate=None, depth=None, t
     tag = tag or (module + "_" + os.path.splitext(os.path.basename(cfg))[0])
     meta = os.path.join(BUILD, "tlc", "%s_%d_%d" % (tag, os.getpid(), random.randrange(1 << 30)))
     os.makedirs(meta, exist_ok=True)
-    jopts = ["-Xss256m", "-Xmx" + xmx, "-XX:+UseParallelGC"]
+    if light:
+        # many short runs (trace validation): minimise JVM start-up cost and CPU fan-out
+        jopts = ["-Xss256m", "-Xmx" + xmx, "-XX:+UseSerialGC", "-XX:TieredStopAtLevel=1", "-XX:CICompilerCount=1", "-Xshare:auto"]
+    else:
+        jopts = ["-Xss256m", "-Xmx" + xmx, "-XX:+UseParallelGC"]
     if dfs:
         jopts.append("-Dtlc2.tool.queue.IStateQueue=StateDeque")
     cmd = ["timeout", str(timeout), "java"] + jopts + ["-cp", TLA_CP + ":" + spec_dir, "tlc2.TLC",
